@@ -46,6 +46,11 @@ FAMILIES = [
 # bounded cache) and nested brackets with three forms sharing a prefix (a failed alternative must be memoized too)
 EXTRA = [
     (FAMILIES[1][0], lambda n: [49] + [43, 49] * (n // 2), 20),
+    # four operations: two left-recursive alternatives per rule (the rule looks itself up twice at every level)
+    ([('memo', 1, ('any', [sq(('ref', 0), rn(43), ('ref', 1)), sq(('ref', 0), rn(45), ('ref', 1)), ('ref', 1)])),
+      ('memo', 2, ('any', [sq(('ref', 1), rn(42), ('ref', 2)), sq(('ref', 1), rn(47), ('ref', 2)), ('ref', 2)])),
+      ('memo', 3, ('any', [rn(49), sq(rn(40), ('ref', 0), rn(41))]))],
+     lambda n: [49] + [43, 49, 45, 49, 42, 49, 47, 49] * (n // 8), 20),
     ([('choice', [('ref', 1), ('ref', 2), ('ref', 3), rn(97)]),      # the dispatching Choice is NOT memoized
       ('memo', 2, sq(rn(40), ('ref', 0), rn(44), ('ref', 0), rn(44), ('ref', 0), rn(41))),
       ('memo', 3, sq(rn(40), ('ref', 0), rn(44), ('ref', 0), rn(41))),
@@ -67,6 +72,8 @@ def generate(rng, tier):
             out.append(("C17 %d %d %s %s" % (k, n, small, big), {"stream": "family-%d" % k}))
     for j, (rules, inp, top) in enumerate(EXTRA):
         for n in ((16, 64, 128, 160) if tier == "quick" else range(8, 161, 8)):
+            if j == 1 and n > 64:
+                continue      # the ambiguous-free four-operation family is the heaviest: up to 128-byte inputs
             small = "(%s)" % G.case_text(rules, ('ref', 0), inp(n))
             big = "(%s)" % G.case_text(rules, ('ref', 0), inp(2 * n))
             out.append(("C17 %d %d %s %s" % (len(FAMILIES) + j, n, small, big), {"stream": "extra-family-%d" % j}))
@@ -84,3 +91,4 @@ MANIFEST = {
     "note": "Trusted: as C01 plus vm_compute for the finite-domain theorem. Partial: bounded domain only.",
     "ref": "DESIGN.md section 6, C17",
 }
+COQCHK_TIMEOUT = 240      # coqchk re-checks the VM casts of CostProofs.v with the lazy machine and cannot finish them: bounded, reported as a note
